@@ -612,7 +612,9 @@ int harness_main(int argc, char **argv, const Harness &h) {
 			}
 			Plan p = gen_plan(prop, tier, cls, run_seed(base, prop, idx));
 			Result r;
+			alarm(25);	// watchdog: a run that makes no simulator progress for 25 s of wall time kills the worker; the driver replays the seed
 			run_inproc(p, false, r);
+			alarm(0);
 			runs++;
 			steps += r.steps;
 			sim_s += r.sim_ns * 1e-9;
